@@ -334,6 +334,9 @@ func nativeReplay(ov *overlaySet, es *entrySpec, cexPath string, want *Violation
 		return "assume-failed", s
 	case strings.Contains(s, "fatal error: concurrent map") || strings.Contains(s, "WARNING: DATA RACE"):
 		return "reproduced", s
+	case strings.Contains(s, "fatal error: sync:") && (want == nil || want.Kind == "panic"):
+		// misuse of a lock (unlock of an unlocked mutex, ...) kills the process natively; the interpreter reports it as a panic
+		return "reproduced", s
 	case strings.Contains(s, "panic:") && err != nil:
 		return "reproduced", s
 	case strings.Contains(s, "test timed out") || strings.Contains(s, "all goroutines are asleep"):
